@@ -59,6 +59,9 @@ func runC08(p *Prog, r *Report) {
 	c08Balanced(p, r, e, "D5-balanced")
 	r.Rule("D6-skipdir-only-for-directories", "the walk callback returns SkipDir only for a directory the skip predicate selected (shared with C01)")
 	skipDirOnlyForSkippedDirs(p, r, e, "D6-skipdir-only-for-directories")
+	r.Rule("D7-walk", "the walker visits every entry of a directory whatever the order and the batching of the listing (shared with C01)")
+	c01Walker(p, r, e)
+	setOnlyAtConstruction(p, r, "D7-walk", "extractor/filesystem/internal", "dirIterator", "files", "the preloaded list of a directory iterator is replaced after construction: an iterator that reads in batches reports end-of-directory after its first batch, so which entries are visited depends on the order in which the file system lists them")
 }
 
 func c08Sorted(p *Prog, r *Report) {
